@@ -18,7 +18,7 @@ def decode_all(ia32, cases):
             if i is None:
                 out.append(None)
             else:
-                out.append((i.l, bytes(i.b) if not isinstance(i.b, bytes) else i.b, str(i), i))
+                out.append((i.l, bytes(i.b) if not isinstance(i.b, bytes) else i.b, str(i), i, str(i)))
         except Exception as ex:
             out.append(('EXC', type(ex).__name__))
     return out
@@ -35,7 +35,7 @@ def judge(b, meta, mx, od, idx):
     olen, otext = od
     if '(bad)' in otext or otext.startswith('.byte') or otext.startswith('.'):
         return ('skip', 'reference-rejects')
-    l, raw, text, ins = mx
+    l, raw, text, ins = mx[:4]
     try:
         nfo, implied16 = R.parse_intel(otext, addr=idx * R.SLOT, length=olen, source='od')
     except R.Unparsable as ex:
@@ -46,6 +46,9 @@ def judge(b, meta, mx, od, idx):
         return ('skip', 'reference-overlong')
     if l != olen and meta[1] == '1' and meta[2] == 0x9b and nfo.mnemo.startswith('f'):
         return ('skip', 'reference folds fwait into the next x87 instruction')
+    if len(mx) > 4 and mx[4] != text:
+        # "as shown by its Intel-syntax rendering": the rendering is a function of the decoded instruction, not of how often it was shown
+        return ('bad', 'rendering-changes', 'first rendering %r, second rendering of the same object %r' % (text.strip(), mx[4].strip()))
     if l != olen:
         return ('bad', 'length', 'miasmX length %d (%s), reference length %d (%s)' % (l, text.strip(), olen, otext))
     if raw != b.ljust(R.SLOT, b'\x90')[:l]:
